@@ -106,7 +106,12 @@ LEVEL_TEXT = ("Machine-checked theorems (Coq 8.16, closed under the global conte
               "range (C07_range_consts_table, C07_range_preds_table), Build.arg_build IS the interpreter of the table for "
               "every argument (C07_arg_build_table, C07_built_takes_value_table), args_override_self is a global setting "
               "that holds at every level below (C07_args_override_self_global) and propagate_subcommand is the table's "
-              "function (C07_settings_propagate_table); for the configuration gate the model is STRICTER than the source "
+              "function (C07_settings_propagate_table); Gen/BuildTables.v: the generated --help/--version arguments and help "
+              "subcommand and the whole _check_help_and_version step (C07_generated_args_table, C07_help_version_table), the "
+              "key order of mkeymap.rs append_keys (C07_arg_keys_table: Cmd.arg_keys is the table's function for every "
+              "argument), the chain case-file flag -> Arg setter -> ArgSettings variant -> model field "
+              "(C07_arg_flags_table), and the copies of takes_values in the C15/C16 models "
+              "(C07_other_models_takes_values); for the configuration gate the model is STRICTER than the source "
               "for SetTrue/SetFalse (source: num_args(0..=1) and any value parser allowed): C07_action_gate_table states the "
               "exact relation, C07_action_gate_table_refuted is the witness that equality fails, C07_gate_implies_source "
               "that whatever the model's gate accepts passes the source's assertions.  A source edit that changes one of "
